@@ -79,9 +79,23 @@ func (l *zzLink) relay(first *pool.Message) (*pool.Message, bool) {
 		l.relayed++
 		fault := 0
 		if l.faults < l.maxFaults {
-			fault = symChoose("fault", 3) // 0 deliver, 1 deliver twice, 2 drop
+			fault = symChoose("fault", 4) // 0 deliver, 1 deliver twice, 2 drop, 3 a stale final block arrives first
 			if fault != 0 {
 				l.faults++
+			}
+		}
+		if fault == 3 {
+			// a delayed final block (M=0) of an earlier, shorter exchange with the same token and a lower block
+			// number reaches the responder while at least two blocks of this upload are reassembled
+			if v, err := msg.GetOptionUint32(message.Block1); err == nil {
+				if szx, num, _, derr := DecodeBlockOption(v); derr == nil && num >= 2 {
+					symCover("stale-final-block")
+					st := zzCopyMsg(msg)
+					sv, _ := EncodeBlockOption(szx, num-2, false)
+					st.SetOptionUint32(message.Block1, sv)
+					st.SetBody(bytes.NewReader([]byte{0xEE, 0xEE, 0xEE}))
+					_ = l.toServer(st)
+				}
 			}
 		}
 		if fault == 2 {
@@ -124,6 +138,28 @@ func (l *zzLink) relay(first *pool.Message) (*pool.Message, bool) {
 				// the requester reacts to the foreign block (typically by restarting from block 0)
 				msg = fw.Message()
 				continue
+			}
+		}
+		if fault == 3 {
+			// the same on the way back: a stale final Block2 block with a lower number reaches the requester first
+			if v, err := reply.GetOptionUint32(message.Block2); err == nil {
+				if szx, num, _, derr := DecodeBlockOption(v); derr == nil && num >= 2 {
+					symCover("stale-final-block")
+					st := zzCopyMsg(reply)
+					sv, _ := EncodeBlockOption(szx, num-2, false)
+					st.SetOptionUint32(message.Block2, sv)
+					st.SetBody(bytes.NewReader([]byte{0xEE, 0xEE, 0xEE}))
+					sw := responsewriter.New(pool.NewMessage(st.Context()), l.cc, st.Options()...)
+					sw.Message().SetToken(st.Token())
+					var early *pool.Message
+					l.cli.Handle(sw, st, l.szxC, l.max, func(w *responsewriter.ResponseWriter[*zzBWClient], r *pool.Message) {
+						l.cliDeliveries++
+						early = r
+					})
+					if early != nil {
+						return early, true
+					}
+				}
 			}
 		}
 		var delivered *pool.Message
